@@ -244,7 +244,8 @@ vf::CaseResult run_case(const std::string &id, const Program &prog, Stats &st) {
     std::string annot;
     if (op.code == O_PROP_CREATE || op.code == O_PROP_WRITE || op.code == O_PROP_DROP) {
       if (use_props) {
-        if (op.code == O_PROP_CREATE) { static const int tmap[8] = {PT_INT, PT_BOOL, PT_DOUBLE, PT_STRING, PT_VEC3D, PT_BOOL, PT_BOOL, PT_INT}; cont = bank.create(op.a[0] % PK_COUNT, tmap[op.a[1] % 8], op.a[2] % 3, op.a[3] % 5, annot); }
+        if (op.code == O_PROP_CREATE && op.a[4] % 5 == 0) cont = bank.create_attrib(op.a[1], op.a[0], annot);  // one in five: an attribute class instead of a bare property
+        else if (op.code == O_PROP_CREATE) { static const int tmap[8] = {PT_INT, PT_BOOL, PT_DOUBLE, PT_STRING, PT_VEC3D, PT_BOOL, PT_BOOL, PT_INT}; cont = bank.create(op.a[0] % PK_COUNT, tmap[op.a[1] % 8], op.a[2] % 3, op.a[3] % 5, annot); }
         else if (op.code == O_PROP_WRITE) cont = bank.write(op.a[0], op.a[1], 1 + op.a[2] % 9, annot);
         else bank.drop(op.a[0], annot);
         if (cont)
